@@ -231,6 +231,20 @@ def fixed_cases():
     return cases
 
 
+def shifted(spec, d):
+    """the same tree, every numbering pattern keeping its text but starting d later"""
+    t = copy.deepcopy(spec)
+    if t[0] == "list":
+        if t[6] is not None:
+            t[6] = [t[6][0], t[6][1], t[6][2] + d]
+        t[3] = [shifted(x, d) for x in t[3]]
+    elif t[0] == "window":
+        t[2] = [shifted(x, d) for x in t[2]]
+    elif t[0] == "center":
+        t[1] = shifted(t[1], d)
+    return t
+
+
 def rand_case(rng):
     for _ in range(50):
         tree = rc.rand_tree(rng, depth=3)
@@ -257,8 +271,13 @@ def rand_case(rng):
             x = rc.rand_tree(rng, depth=min(1, depth_left), allow_window=False)
             ops.append(("add", path, x))
             spec_add(cur, path, copy.deepcopy(x))
-        else:
+        elif rng.random() < 0.5:
             ops.append(("other", rc.rand_tree(rng, depth=2), rng.choice([rng.randrange(1, 40), 80])))
+        else:
+            # the OTHER widget is a sibling of this one: the same tree with every list numbered from another offset
+            # (same pattern text) and, half of the time, the same width: "rendering one widget never changes how another renders"
+            ops.append(("other", shifted(cur, rng.choice([1, 3, 4, -1, 10])), rng.choice(widths) if widths and rng.random() < 0.5
+                        else rng.choice([rng.randrange(1, 40), 80])))
     if ops[-1][0] != "render":
         ops.append(("render", rng.choice(widths) if widths and rng.random() < 0.5 else rng.randrange(5, 90)))
     return tree, ops
